@@ -332,6 +332,64 @@ def check_scale(ctx):
     ctx.check(ok, R5, f.key + ":distribute", "total - sum(floors) units are handed out, one each, to the first indices of that order", "the shortfall is not distributed one unit each to distinct indices taken from the remainder order", f)
 
 
+def check_counter_merges(ctx):
+    """Counters of shots are multisets: merging two of them must add multiplicities (``+``, ``+=``, ``.update``);
+    ``|`` / ``|=`` take the element-wise maximum and ``&`` the minimum, which loses shots whenever both sides hold
+    the same outcome."""
+    repo = ctx.repo
+    counter_fns = set()
+    for fi in repo.all_functions():
+        r = fi.node.returns
+        if r is not None and "Counter" in norm(r):
+            counter_fns.add(fi.name)
+    n = 0
+    for modname in ("measurements.measurements", "circuits._itertools", "utils"):
+        if modname not in repo.modules:
+            continue
+        for fi in repo.module(modname).functions.values():
+            typed = set()
+            a = fi.node.args
+            for p in list(a.posonlyargs) + list(a.args) + list(a.kwonlyargs):
+                if p.annotation is not None and "Counter" in norm(p.annotation):
+                    typed.add(p.arg)
+            def is_counter(v) -> bool:
+                if isinstance(v, ast.Name):
+                    return v.id in typed
+                if isinstance(v, ast.Call):
+                    last = (dotted(v.func) or "").split(".")[-1]
+                    if last == "Counter" or last in counter_fns:
+                        return True
+                    if isinstance(v.func, ast.Attribute) and v.func.attr == "copy" and is_counter(v.func.value):
+                        return True
+                    if last in ("deepcopy", "copy") and v.args and is_counter(v.args[0]):
+                        return True
+                if isinstance(v, ast.BinOp) and isinstance(v.op, (ast.Add, ast.Sub, ast.BitOr, ast.BitAnd)):
+                    return is_counter(v.left) or is_counter(v.right)
+                return False
+
+            for _ in range(3):
+                for st in body_walk(fi.node):
+                    if isinstance(st, (ast.Assign, ast.AnnAssign)) and st.value is not None:
+                        tg = st.targets[0] if isinstance(st, ast.Assign) else st.target
+                        if isinstance(tg, ast.Name) and is_counter(st.value):
+                            typed.add(tg.id)
+                        if isinstance(st, ast.AnnAssign) and isinstance(tg, ast.Name) and "Counter" in norm(st.annotation):
+                            typed.add(tg.id)
+            if not typed:
+                continue
+            for st in body_walk(fi.node):
+                bad = None
+                if isinstance(st, ast.AugAssign) and isinstance(st.op, (ast.BitOr, ast.BitAnd)) and isinstance(st.target, ast.Name) and st.target.id in typed:
+                    bad = st
+                elif isinstance(st, ast.BinOp) and isinstance(st.op, (ast.BitOr, ast.BitAnd)) and any(isinstance(x, ast.Name) and x.id in typed for x in (st.left, st.right)):
+                    bad = st
+                if bad is not None:
+                    n += 1
+                    ctx.violation(R6, f"{fi.key}:counter-merge:{short(bad, 40)}", f"`{short(bad)}` merges shot Counters with {'|' if isinstance(bad.op, ast.BitOr) else '&'}: that keeps the element-wise {'maximum' if isinstance(bad.op, ast.BitOr) else 'minimum'} instead of adding multiplicities, so shots are lost (or eliminations dropped) whenever both sides contain the same outcome", f"{fi.module.relpath}:{bad.lineno}")
+            ctx.ok(R6, f"{fi.key}:counter-merge", "shot Counters are only ever merged by addition", fi)
+            ctx.analysed(fi)
+
+
 def check_representing(ctx):
     repo = ctx.repo
     f = repo.func(f"{MS}:Measurements.get_measurements_representing_distribution")
@@ -433,5 +491,6 @@ def run(ctx):
     ctx.floor("C13-D3", 6)
     ctx.floor("C13-D4", 3)
     ctx.floor("C13-D5", 6)
-    ctx.floor("C13-D6", 6)
+    check_counter_merges(ctx)
+    ctx.floor("C13-D6", 8)
     ctx.floor("C13-D7", 15)
